@@ -91,7 +91,9 @@ func (h *hangProbe) collect(r *vlib.Run) {
 		case o.Crashed:
 			r.Violate("crash/"+c.S.String()+"/a1.dot", o.Info, map[string]interface{}{"text": string(c.Text), "setting": c.S.String()})
 		case o.Done:
-			answered++
+			if !control {
+				answered++
+			}
 			res := o.Res
 			r.Add("transitions", 1)
 			r.Add("traces_validated_against_impl", 1)
